@@ -151,6 +151,7 @@ static qtreetbl_obj_t *put_obj(qtreetbl_t *tbl, qtreetbl_obj_t *obj,
 static qtreetbl_obj_t *remove_obj(qtreetbl_t *tbl, qtreetbl_obj_t *obj,
                                   const void *name, size_t namesize);
 static void free_objs(qtreetbl_obj_t *obj);
+static void clear_tids(qtreetbl_obj_t *obj);
 static uint8_t reset_iterator(qtreetbl_t *tbl);
 
 struct branch_obj_s {
@@ -1318,11 +1319,26 @@ static void free_objs(qtreetbl_obj_t *obj) {
     free(obj);
 }
 
+static void clear_tids(qtreetbl_obj_t *obj) {
+    if (obj == NULL) {
+        return;
+    }
+    obj->tid = 0;
+    clear_tids(obj->left);
+    clear_tids(obj->right);
+}
+
 static uint8_t reset_iterator(qtreetbl_t *tbl) {
     if (tbl->root != NULL) {
         tbl->root->next = NULL;
     }
-    return (++tbl->tid);
+    if (++tbl->tid == 0) {
+        // travel id wrapped around. 0 is what fresh nodes carry and older
+        // ids are about to be reused, so wipe all the marks and restart.
+        clear_tids(tbl->root);
+        tbl->tid = 1;
+    }
+    return tbl->tid;
 }
 
 static void print_branch(struct branch_obj_s *branch, FILE *out) {
